@@ -2,7 +2,10 @@
 
 Case lines (grammar in coq/theories/Run/RunSec.v and harness/src/chan_sec.rs):
   IPPT <scope flags> <primary | -> <H type num flags | -> <canonical>
-  BIB x<key> <scope flags> <ctx flags> <source eid> (NOPAR | PAR <sha> <wrapped key> <scope>) <bib num> <bib flags> <bundle> T <targets..> I <numbers..>
+  BIB x<key> {RESIGN x<old key> <k> <number>*k}.. <scope flags> <ctx flags> <source eid> (NOPAR | PAR <sha> <wrapped key> <scope>) <bib num>
+      <bib flags> <bundle> T <targets..> I <numbers..>
+      (each RESIGN round = an earlier compute_hmac(old key, IPPTs of the listed blocks) on the SAME IntegrityBlock: re-signing / key rotation;
+       the results must be those of the LAST key only)
 The oracle recomputes everything on the implementation's output with Python only: genb's CBOR writer / RFC 9171 reference
 encoder for the IPPT (RFC 9173 3.7), the ASB (RFC 9172 3.6) and the BIB block, hashlib/hmac for the MACs; the RFC 9173
 Appendix A.1 hex strings are hard-coded below and compared on the A.1 corpus line."""
@@ -14,6 +17,7 @@ from genb import c_uint, c_bytes, c_arr
 from vlib import rnd_u64, xhex, U64
 
 THEOREMS = ["C16_ippt", "C16_ippt_raw_flags", "C16_result_shape", "C16_result_shape_generic", "C16_unsupported_variant_panics",
+            "C16_results_ignored", "C16_resign_replaces", "C16_resign_pipeline",
             "C16_asb_layout", "C16_bib_pipeline", "C16_bib_block", "C16_ippt_injective", "C16_ippt_injective_target"]
 XCHECK = 120
 RULE = ("IPPT: target blocks of every carried type (payload, bundle age, hop count, previous node, unknown types incl. 11/12/192/2^64-1) x all 8 "
@@ -21,7 +25,9 @@ RULE = ("IPPT: target blocks of every carried type (payload, bundle age, hop cou
         "EID kinds) x security headers with boundary-biased numbers; BIB: bundles with 0-3 extension blocks, 1..n targets in random order, SHA "
         "variants 5/6/7 (others: abort expected), random 16-byte keys plus all-zero / all-0xff, keys of 0/1/64/65/128/129/200 bytes on the model "
         "side only (the API takes [u8;16]; the model line is then judged by the same Python oracle), parameter sets with/without wrapped key and "
-        "scope parameter, mismatching IPPT lists; non-trivial = distinct line with an OK result")
+        "scope parameter, mismatching IPPT lists; RE-SIGNING: 1-3 earlier compute_hmac rounds on the same IntegrityBlock (other key, same / "
+        "reordered / shorter / longer / empty IPPT list) before the final one, expected: exactly one result per target under the LAST key; "
+        "non-trivial = distinct line with an OK result")
 TRUSTED_BASE = [
     "crates sha2 0.10.9 / hmac 0.12.1 are tied to Model/Sha2.v + Model/Hmac.v (anchored in the kernel to RFC 4231 cases 1, 2, 6 and RFC 9173 A.1) "
     "by the K-sec channel and judged by python hashlib/hmac, not verified",
@@ -68,13 +74,14 @@ def _show_pair(x, isbytes=False):
     return "%d %s" % (x[0], xhex(x[1]) if isbytes else "%d" % x[1])
 
 
-def bib_line(key, flags, ctx, src, params, bnum, bflags, b, targets, inums):
+def bib_line(key, flags, ctx, src, params, bnum, bflags, b, targets, inums, rounds=()):
     if params is None:
         ps = "NOPAR"
     else:
         ps = "PAR %s %s %s" % (_show_pair(params[0]), _show_pair(params[1], True), _show_pair(params[2]))
-    return "BIB %s %d %d %s %s %d %d %s T %s I %s" % (xhex(key), flags, ctx, genb.show_eid(src), ps, bnum, bflags, genb.show_bundle(b),
-                                                      " ".join(map(str, targets)), " ".join(map(str, inums)))
+    rs = "".join(" RESIGN %s %d%s" % (xhex(k), len(nums), "".join(" %d" % n for n in nums)) for k, nums in rounds)
+    return "BIB %s%s %d %d %s %s %d %d %s T %s I %s" % (xhex(key), rs, flags, ctx, genb.show_eid(src), ps, bnum, bflags, genb.show_bundle(b),
+                                                        " ".join(map(str, targets)), " ".join(map(str, inums)))
 
 
 # ------------------------------------------------------------------ parsing of case lines (replay-safe) --
@@ -121,6 +128,11 @@ def parse_line(line):
         return ("IPPT", flags, p, sh, _parse_canonical(t))
     if toks[0] == "BIB":
         key = t.b()
+        rounds = []
+        while _peek(t) == "RESIGN":
+            t.next()
+            k = t.b()
+            rounds.append((k, [t.n() for _ in range(t.n())]))
         flags, ctx = t.n(), t.n()
         src = genb.parse_eid(t)
         k = t.next()
@@ -137,7 +149,7 @@ def parse_line(line):
         inums = []
         while _peek(t) is not None:
             inums.append(t.n())
-        return ("BIB", key, flags, ctx, src, params, bnum, bflags, b, targets, inums)
+        return ("BIB", key, flags, ctx, src, params, bnum, bflags, b, targets, inums, rounds)
     return None
 
 
@@ -178,9 +190,10 @@ def _find(b, n):
 
 
 def in_domain_bib(case):
-    _, key, flags, ctx, src, params, bnum, bflags, b, targets, inums = case
+    _, key, flags, ctx, src, params, bnum, bflags, b, targets, inums, rounds = case
     return (params is not None and params[0] is not None and params[0][1] in SHA and flags < 8 and (ctx & 1) == 1 and targets == inums
-            and len(targets) > 0 and all(_find(b, n) is not None for n in targets) and b["p"]["crc"] == ("N",))
+            and len(targets) > 0 and all(_find(b, n) is not None for n in targets) and b["p"]["crc"] == ("N",)
+            and all(_find(b, n) is not None for _, nums in rounds for n in nums))     # earlier rounds: any key, any existing blocks
 
 
 def judge(line, out):
@@ -203,7 +216,7 @@ def judge(line, out):
             return "IPPT is not the RFC 9173 3.7 concatenation for scope flags %d (got %s, want %s)" % (flags, out[:60], xhex(want)[:60])
         return None
     # ---- BIB
-    _, key, flags, ctx, src, params, bnum, bflags, b, targets, inums = case
+    _, key, flags, ctx, src, params, bnum, bflags, b, targets, inums, rounds = case
     if not in_domain_bib(case):
         return None
     if not out.startswith("OK IPPT "):
@@ -231,6 +244,9 @@ def judge(line, out):
         if got != want:
             return "IPPT of target %d (%s) is not the RFC 9173 3.7 concatenation: %s, want %s" % (n, _find(b, n)["data"][0], got.hex()[:80], want.hex()[:80])
     if nres != len(targets):
+        if rounds:
+            return ("%d result sets for %d targets after signing the same block %d times: compute_hmac must replace the results of an "
+                    "earlier signature (one result per target, under the last key)" % (nres, len(targets), len(rounds) + 1))
         return "%d result sets for %d targets" % (nres, len(targets))
     variant = params[0][1]
     macs = []
@@ -240,6 +256,9 @@ def judge(line, out):
         rid, mac = r[0]
         want = pyhmac.new(key, ippt, SHA[variant]).digest()
         if mac != want:
+            for k_old, _ in rounds:
+                if len(k_old) == len(key) and mac == pyhmac.new(k_old, ippt, SHA[variant]).digest():
+                    return "result value of target %d is the HMAC under an EARLIER key (stale result of a previous signature)" % n
             return "result value of target %d is not HMAC-SHA2 (variant %d) of its IPPT under the key" % (n, variant)
         if rid != 1:
             return "result id of target %d is %d, RFC 9173 3.4 fixes it to 1 (it equals the target's block number)" % (n, rid)
@@ -277,7 +296,7 @@ def same(line, io, mo):
     if io == "SKIP" and mo is not None:
         try:
             case = parse_line(line)
-            if case[0] == "BIB" and len(case[1]) != 16:
+            if case[0] == "BIB" and (len(case[1]) != 16 or any(len(k) != 16 for k, _ in case[11])):
                 if not in_domain_bib(case):
                     return True
                 return mo.startswith("OK ") and judge(line, mo) is None
@@ -298,7 +317,7 @@ def classify(line, out):
     try:
         case = parse_line(line)
         v = case[5][0][1] if case[5] and case[5][0] else -1
-        return "BIB:v%d:k%d:n%d:%s" % (v, len(case[1]), len(case[9]), o)
+        return "BIB:v%d:k%d:n%d:r%d:%s" % (v, len(case[1]), len(case[9]), len(case[11]), o)
     except Exception:
         return "BIB:?:" + o
 
@@ -352,7 +371,7 @@ def _small_bundle(rng, kinds=None):
     return dict(p=p, cs=cs)
 
 
-def _rnd_bib(rng, variant=None, key=None, flags=None, consistent=True):
+def _rnd_bib(rng, variant=None, key=None, flags=None, consistent=True, resign=0):
     b = _small_bundle(rng)
     nums = [c["num"] for c in b["cs"]]
     k = rng.randrange(1, len(nums) + 1)
@@ -384,7 +403,30 @@ def _rnd_bib(rng, variant=None, key=None, flags=None, consistent=True):
     bnum = rng.choice(free) if rng.random() < 0.9 else rng.choice(nums)
     bflags = rng.choice([0, 0, 1, 4, 16, 8, 255, rng.randrange(256)])
     src = genb.rnd_eid(rng)
-    return bib_line(key if key is not None else _rnd_key(rng), flags, ctx, src, params, bnum, bflags, b, targets, inums)
+    key = key if key is not None else _rnd_key(rng)
+    rounds = []
+    for _ in range(resign):
+        # an earlier signature on the same block: usually the same IPPT list under another key (key rotation); also sub-/super-lists,
+        # another order, the empty list, the very same key, rarely a key length the API cannot take or a missing block
+        r = rng.random()
+        if r < 0.55:
+            rn = list(targets)
+        elif r < 0.65:
+            rn = rng.sample(targets, len(targets))
+        elif r < 0.78:
+            rn = rng.sample(nums, rng.randrange(1, len(nums) + 1))
+        elif r < 0.86:
+            rn = list(targets) + [rng.choice(nums)]
+        elif r < 0.92:
+            rn = rng.sample(targets, rng.randrange(0, len(targets)))
+        elif r < 0.97:
+            rn = []
+        else:
+            rn = [rng.choice([6, 7, 8])]
+        q = rng.random()
+        ok = key if q < 0.08 and len(key) == 16 else bytes(rng.randrange(256) for _ in range(16 if q < 0.94 else rng.choice([0, 1, 17, 200])))
+        rounds.append((ok, rn))
+    return bib_line(key, flags, ctx, src, params, bnum, bflags, b, targets, inums, rounds)
 
 
 def corpus():
@@ -404,6 +446,20 @@ def corpus():
     out.append(bib_line(A1_KEY, 7, 1, ("IPN", 2, 2, 1), ((1, 6), None, (3, 7)), 3, 0, b, [2, 1], [2, 1]))
     b2 = dict(p=A1_PRIMARY, cs=[dict(type=192, num=5, flags=1, crc=("N",), data=("UNK", b"\x01\x02\x03")), A1_PAYLOAD])
     out.append(bib_line(bytes(16), 2, 1, ("DTN", 1, b"//sec/src"), ((1, 7), (2, b"\x00" * 24), (3, 2)), 9, 8, b2, [5], [5]))
+    # re-signing (seeded change C16-m1: results not reset): A.1 signed first under the all-zero key, then under the RFC key, must still give
+    # the RFC's signature / ASB / bundle; two targets; two earlier rounds; earlier round with a longer / shorter / empty / reordered list
+    a1b = dict(p=A1_PRIMARY, cs=[A1_PAYLOAD])
+    a1par = ((1, 7), None, (3, 0))
+    out.append(bib_line(A1_KEY, 0, 1, ("IPN", 2, 2, 1), a1par, 2, 0, a1b, [1], [1], [(bytes(16), [1])]))
+    out.append(bib_line(A1_KEY, 0, 1, ("IPN", 2, 2, 1), a1par, 2, 0, a1b, [1], [1], [(bytes(16), [1]), (b"\xff" * 16, [1])]))
+    out.append(bib_line(A1_KEY, 0, 1, ("IPN", 2, 2, 1), a1par, 2, 0, a1b, [1], [1], [(A1_KEY, [1])]))
+    out.append(bib_line(A1_KEY, 0, 1, ("IPN", 2, 2, 1), a1par, 2, 0, a1b, [1], [1], [(bytes(16), [])]))
+    out.append(bib_line(A1_KEY, 7, 1, ("IPN", 2, 2, 1), ((1, 6), None, (3, 7)), 3, 0, b, [1, 2], [1, 2], [(bytes(16), [1, 2])]))
+    out.append(bib_line(A1_KEY, 7, 1, ("IPN", 2, 2, 1), ((1, 5), None, (3, 7)), 3, 0, b, [1, 2], [1, 2], [(bytes(16), [2])]))
+    out.append(bib_line(A1_KEY, 7, 1, ("IPN", 2, 2, 1), ((1, 5), None, (3, 7)), 3, 0, b, [2], [2], [(bytes(16), [2, 1, 2])]))
+    out.append(bib_line(A1_KEY, 7, 1, ("IPN", 2, 2, 1), ((1, 5), None, (3, 7)), 3, 0, b, [2, 1], [2, 1], [(bytes(16), [1, 2])]))
+    out.append(bib_line(A1_KEY, 0, 1, ("IPN", 2, 2, 1), ((1, 7), None, None), 3, 0, b, [2, 1], [1], [(bytes(16), [1, 2])]))   # PANIC on HEAD (fewer results)
+    out.append(bib_line(A1_KEY, 0, 1, ("IPN", 2, 2, 1), a1par, 2, 0, a1b, [1], [1], [(b"k", [1])]))                          # old key the API cannot take
     # every target kind x every scope flag value x every variant, fixed primary
     for kind in TARGET_TYPES:
         for f in range(8):
@@ -439,6 +495,9 @@ def cases(rng, tier):
         out.append(ippt_line(flags, p, sh, _rnd_target(rng, TARGET_TYPES[(i // 8) % 5] if r < 0.5 else None)))
     for i in range(n_bib):
         out.append(_rnd_bib(rng, consistent=rng.random() < 0.88))
+    n_resign = 350 if tier == "quick" else 20000
+    for i in range(n_resign):
+        out.append(_rnd_bib(rng, consistent=rng.random() < 0.93, resign=rng.choice([1, 1, 1, 2, 3])))
     return out
 
 
@@ -448,7 +507,7 @@ def search_cases(rng, tier, breaks):
 
 def shrink(v, run):
     """try the D13-style minimal witnesses first: same command on the smallest inputs that keep the failure"""
-    cands = [l for l in corpus()[:20]]
+    cands = [l for l in corpus()[:28]]
     outs = run(cands)
     for l, o in zip(cands, outs):
         why = oracle(l, o, v["mode"])
